@@ -1670,6 +1670,15 @@ pub fn gen_recovery(t: &mut Tape) -> GSpec {
         stmt_alts.push(user(err()));
         any_err = true;
     }
+    if t.chance(110) {
+        // `!` after a nonterminal: the states that complete an expression get a
+        // reduce action on the error pseudo-terminal
+        let mut v = vec![SymKind::N(2)];
+        v.extend(err());
+        v.push(tm(t_semi));
+        stmt_alts.push(user(v));
+        any_err = true;
+    }
     let e_alts = vec![user(vec![SymKind::N(3)]), user(vec![SymKind::N(2), tm(t_plus), SymKind::N(3)])];
     let mut t_alts = vec![user(vec![tm(t_atom)]), user(vec![tm(t_lp), SymKind::N(2), tm(t_rp)])];
     if t.chance(130) || !any_err {
